@@ -120,6 +120,8 @@ class G:
                 else:
                     items.append(self.char())
             return ('cls', items, rng.random() < 0.35, rng.random() < 0.2)
+        if self.shape == 'switch' and rng.random() < 0.7:
+            return ('chr', self.char())
         return ('dot',)
 
     def nonnull(self, depth, guarded):
@@ -172,6 +174,12 @@ class G:
             return ('seq', items)
         if r < (0.42 if not sw else 0.55):
             k = rng.choice([2, 2, 3, 3, 4, 5]) if not sw else rng.choice([3, 3, 4, 4, 5])
+            if sw:
+                # mostly alternatives with a non-empty first set (otherwise the generator emits
+                # `case '<nil>':`), some nullable / lookahead-first ones on purpose
+                alts = [self.nonnull(depth - 1, guarded) if rng.random() < 0.88 else self.expr(depth - 1, guarded)
+                        for _ in range(k)]
+                return ('alt', alts, rng.random() < 0.04)
             alts = [self.expr(depth - 1, guarded) for _ in range(k)]
             return ('alt', alts, rng.random() < 0.12)
         if r < 0.50:
